@@ -306,3 +306,78 @@ def rule_N5(prog, fixture=False):
                 res.add(key, DISCHARGED, where, what, "integer elements", func=f.name, extra=extra)
     res.stats["accumulate_calls"] = n
     return res
+
+
+# ------------------------------------------------------------------------------------------------
+# N6 REAL-THROUGH-INT: a real quantity is not squeezed through an integer parameter on its way to a real formula
+def rule_N6(prog, fixture=False):
+    res = RuleResult("N6", "an integer parameter that receives a floating-point argument at every call site (implicit conversion) and "
+                           "is itself used only after conversion back to floating point serves no integer purpose: the fraction of "
+                           "the caller's value is dropped on the way (real_t snr -> int snr -> pow(10, -snr / 20.0))")
+    n = 0
+    for g in sorted(prog.functions.values(), key=lambda f: (f.file, f.line, f.name)):
+        if g.get("implicit") or g.file.endswith("coverage.cc"):
+            continue
+        rel = prog.rel(g.file)
+        props = [p for (rx, p) in N5_FILES if rx.search(rel)]
+        if fixture:
+            props = ["C19"]
+        if not props:
+            continue
+        for pi, prm in enumerate(g.params):
+            if prm.get("tc") != "int" or prm.get("ref") or prm.get("ptr"):
+                continue
+            uses = [x for x in g.walk() if x.k == "DeclRefExpr" and x.decl and x.decl.get("k") == "parm" and x.decl.get("id") == prm.get("id")]
+            if not uses:
+                continue
+            all_real = True
+            for u in uses:
+                p = u.parent
+                ok = False
+                while p is not None:
+                    if p.k == "ImplicitCastExpr" and p.get("ck") in ("LValueToRValue", "NoOp"):
+                        p = p.parent
+                        continue
+                    if p.k == "ParenExpr" or (p.k == "UnaryOperator" and p.op in ("-", "+")):
+                        p = p.parent
+                        continue
+                    if p.k in ("ImplicitCastExpr", "CXXStaticCastExpr", "CStyleCastExpr", "CXXFunctionalCastExpr") and (p.get("ck") == "IntegralToFloating" or p.tc == "float"):
+                        ok = True
+                    break
+                if not ok:
+                    all_real = False
+                    break
+            if not all_real:
+                continue
+            # call sites
+            sites = []
+            for (caller, c) in prog.callers_of(g.usr):
+                cn = caller.nodes.get(c["node"])
+                if cn is None or caller.file.endswith("coverage.cc"):
+                    continue
+                args = cn.call_args()
+                if pi < len(args):
+                    sites.append((caller, cn, args[pi]))
+            if not sites:
+                continue
+            n += 1
+            key = "N6:%s:%s" % (fkey(g), prm["n"])
+            where = "%s:%d" % (rel, g.line)
+            what = "%s %s of %s" % (prm.get("t"), prm["n"], g.short)
+            extra = {"props": props}
+
+            def implicit_f2i(a):
+                a0 = a
+                while a0 is not None and a0.k in ("ImplicitCastExpr",) and a0.get("ck") in ("LValueToRValue", "NoOp") and a0.c:
+                    a0 = a0.c[0]
+                return a0 is not None and a0.k == "ImplicitCastExpr" and a0.get("ck") == "FloatingToIntegral"
+            if all(implicit_f2i(a) for (_, _, a) in sites):
+                (caller, cn, a) = sites[0]
+                res.add(key, VIOLATED, where, what,
+                        "every caller passes a floating-point value (%s at %s:%d) and %s uses the parameter only after converting it "
+                        "back to floating point: the integer type in between only truncates" % (a.text()[:40], prog.rel(caller.file), cn.line, g.short),
+                        func=g.name, extra=extra)
+            else:
+                res.add(key, DISCHARGED, where, what, "receives integer arguments", func=g.name, extra=extra)
+    res.stats["integer_parameters_used_as_reals"] = n
+    return res
